@@ -194,6 +194,42 @@ func suiteAlloc(args []string) {
 			}
 		}
 	}
+	// a planted length with a LONG real payload behind it: the first k bytes of the value really arrive, then the stream
+	// ends.  Memory must still follow what arrived (thresholds at which an implementation might start trusting the length)
+	for _, k := range []int{1023, 1024, 1025, 4095, 4096, 4097, 32768, 65535, 65536, 65537, 65536 + 4096, 1 << 17, 1 << 20} {
+		for _, pl := range []uint32{1 << 28, 1 << 31, 0xfffffff8} {
+			if stopped {
+				break
+			}
+			req := kmip.Request{Header: kmip.RequestHeader{Version: kmip.ProtocolVersion{Major: 1, Minor: 4}, BatchCount: 1},
+				BatchItems: []kmip.RequestBatchItem{{Operation: kmip.OPERATION_GET, UniqueID: bytes.Repeat([]byte{0x5a}, k+64), RequestPayload: kmip.GetRequest{UniqueIdentifier: "k"}}}}
+			_, b := implEncode(&req)
+			if b == nil {
+				continue
+			}
+			var all []*item
+			walkItems(b, 0, 0, &all)
+			for _, it := range all {
+				if it.typ != 8 || int(it.length) != k+64 {
+					continue
+				}
+				for variant := 0; variant < 2; variant++ {
+					m := append([]byte(nil), b[:it.hdrEnd+k]...)
+					binary.BigEndian.PutUint32(m[it.off+4:], pl)
+					if variant == 1 { // the enclosing structures go along with the lie
+						for _, a := range all {
+							if a.typ == 1 && a.off < it.off && a.end >= it.end {
+								binary.BigEndian.PutUint32(m[a.off+4:], pl+uint32(it.off-a.off)+8)
+							}
+						}
+					}
+					check("Request", m, fmt.Sprintf("byte string declaring %#x of which %d bytes arrive before the stream ends (enclosing lengths %s)", pl, k, []string{"honest", "planted"}[variant]))
+					rep.Nontrivial++
+					rep.Distribution["planted:long-payload"]++
+				}
+			}
+		}
+	}
 	// one legitimately large value, then many small ones - in one message, and in a later message on the same Decoder:
 	// memory must follow the bytes of the item / message being read, not the largest value seen so far
 	for _, big := range []int{64 << 10, 1 << 20} {
